@@ -47,11 +47,34 @@ fn pkg_l() -> Vec<u8> {
 )"#).unwrap()
 }
 
+fn pkg_p() -> Vec<u8> {
+    // exports a resource TYPE `r` (and a function): the same type export can be aliased from several instances
+    wat::parse_str(r#"(component
+  (import "a" (func))
+  (type $r (resource (rep i32)))
+  (core module $m (func (export "f")))
+  (core instance $i (instantiate $m))
+  (func $f (canon lift (core func $i "f")))
+  (export "r" (type $r))
+  (export "f" (func $f))
+)"#).unwrap()
+}
+fn pkg_c() -> Vec<u8> {
+    wat::parse_str(r#"(component
+  (import "r" (type (sub resource)))
+  (import "a" (func))
+  (core module $m (func (export "h")))
+  (core instance $i (instantiate $m))
+  (func $h (canon lift (core func $i "h")))
+  (export "h" (func $h))
+)"#).unwrap()
+}
+
 #[derive(Clone, Debug)]
 enum Origin { Import(String), Alias(u32, String), Instantiate(u32, Vec<(String, K, u32)>), Embedded(usize), Export(K, u32), Other }
 
 #[derive(Default)]
-struct Spaces { funcs: Vec<Origin>, instances: Vec<Origin>, components: Vec<Origin>, exports: Vec<(String, K, u32)>, embedded: Vec<std::ops::Range<usize>>, names: BTreeMap<(u8, u32), String> }
+struct Spaces { funcs: Vec<Origin>, instances: Vec<Origin>, components: Vec<Origin>, types: Vec<Origin>, exports: Vec<(String, K, u32)>, embedded: Vec<std::ops::Range<usize>>, names: BTreeMap<(u8, u32), String> }
 
 fn read(bytes: &[u8]) -> Result<Spaces, String> {
     let mut s = Spaces::default();
@@ -66,7 +89,7 @@ fn read(bytes: &[u8]) -> Result<Spaces, String> {
             Payload::ComponentImportSection(r) => for i in r {
                 let i = i.map_err(|e| e.to_string())?;
                 let o = Origin::Import(i.name.0.to_string());
-                match i.ty { ComponentTypeRef::Func(_) => s.funcs.push(o), ComponentTypeRef::Instance(_) => s.instances.push(o), ComponentTypeRef::Component(_) => s.components.push(o), _ => {} }
+                match i.ty { ComponentTypeRef::Func(_) => s.funcs.push(o), ComponentTypeRef::Instance(_) => s.instances.push(o), ComponentTypeRef::Component(_) => s.components.push(o), ComponentTypeRef::Type(_) => s.types.push(o), _ => {} }
             },
             Payload::ComponentInstanceSection(r) => for i in r {
                 match i.map_err(|e| e.to_string())? {
@@ -74,9 +97,10 @@ fn read(bytes: &[u8]) -> Result<Spaces, String> {
                     ComponentInstance::FromExports(_) => s.instances.push(Origin::Other),
                 }
             },
+            Payload::ComponentTypeSection(r) => for _ in 0..r.count() { s.types.push(Origin::Other); },
             Payload::ComponentAliasSection(r) => for a in r {
                 match a.map_err(|e| e.to_string())? {
-                    ComponentAlias::InstanceExport { kind, instance_index, name } => { let o = Origin::Alias(instance_index, name.to_string()); match kind { K::Func => s.funcs.push(o), K::Instance => s.instances.push(o), K::Component => s.components.push(o), _ => {} } }
+                    ComponentAlias::InstanceExport { kind, instance_index, name } => { let o = Origin::Alias(instance_index, name.to_string()); match kind { K::Func => s.funcs.push(o), K::Instance => s.instances.push(o), K::Component => s.components.push(o), K::Type => s.types.push(o), _ => {} } }
                     _ => {}
                 }
             },
@@ -84,7 +108,7 @@ fn read(bytes: &[u8]) -> Result<Spaces, String> {
                 let e = e.map_err(|e| e.to_string())?;
                 s.exports.push((e.name.0.to_string(), e.kind, e.index));
                 let o = Origin::Export(e.kind, e.index);
-                match e.kind { K::Func => s.funcs.push(o), K::Instance => s.instances.push(o), K::Component => s.components.push(o), _ => {} }
+                match e.kind { K::Func => s.funcs.push(o), K::Instance => s.instances.push(o), K::Component => s.components.push(o), K::Type => s.types.push(o), _ => {} }
             },
             Payload::CustomSection(c) => if c.name() == "component-name" {
                 if let wasmparser::KnownCustom::ComponentName(r) = c.as_known() {
@@ -123,7 +147,10 @@ impl<'a> Enc<'a> {
     fn func(&self, f: u32) -> String {
         match self.s.funcs.get(f as usize) { Some(Origin::Import(n)) => format!("import {n}"), Some(Origin::Alias(j, n)) => format!("({}).{n}", self.inst(*j)), Some(Origin::Export(_, j)) => self.func(*j), _ => "<?func>".into() }
     }
-    fn item(&self, k: K, x: u32) -> String { match k { K::Func => self.func(x), K::Instance => self.inst(x), K::Component => self.comp(x), _ => "<?>".into() } }
+    fn ty(&self, t: u32) -> String {
+        match self.s.types.get(t as usize) { Some(Origin::Import(n)) => format!("import {n}"), Some(Origin::Alias(j, n)) => format!("({}).{n}", self.inst(*j)), Some(Origin::Export(_, j)) => self.ty(*j), _ => "<?type>".into() }
+    }
+    fn item(&self, k: K, x: u32) -> String { match k { K::Func => self.func(x), K::Instance => self.inst(x), K::Component => self.comp(x), K::Type => self.ty(x), _ => "<?>".into() } }
 }
 
 fn graph_term(g: &CompositionGraph, n: NodeId, pkg_names: &BTreeMap<String, &'static str>) -> String {
@@ -147,7 +174,7 @@ fn main() {
     let n: usize = std::env::args().nth(1).and_then(|s| s.parse().ok()).unwrap_or(300);
     let seed: u64 = std::env::args().nth(2).and_then(|s| s.parse().ok()).unwrap_or(0);
     let mut r = Rng(seed.wrapping_mul(48271).wrapping_add(11));
-    let pkgs: Vec<(&'static str, Vec<u8>)> = vec![("t:k", pkg_k()), ("t:l", pkg_l())];
+    let pkgs: Vec<(&'static str, Vec<u8>)> = vec![("t:k", pkg_k()), ("t:l", pkg_l()), ("t:p", pkg_p()), ("t:c", pkg_c())];
     let pkg_names: BTreeMap<String, &'static str> = pkgs.iter().map(|(n, _)| (n.to_string(), *n)).collect();
     let (mut comps, mut instantiations, mut nontrivial) = (0u64, 0u64, std::collections::BTreeSet::new());
     let mut wired = 0u64;
@@ -166,10 +193,15 @@ fn main() {
         let ninst = 2 + r.below(4);
         let mut aliases: Vec<NodeId> = vec![];
         for i in 0..ninst {
-            let k = r.below(2);
+            let k = r.below(4);
             let inst = g.instantiate(pids[k]);
             if r.below(2) == 0 { g.set_node_name(inst, format!("inst{i}")); named += 1; }
-            let args: &[&str] = if k == 0 { &["a", "b"] } else { &["a"] };
+            // the consumer's TYPE argument `r`: an alias of the type export `r` of one of the earlier provider instances
+            if k == 3 {
+                let providers: Vec<NodeId> = insts.iter().filter(|(_, kj)| *kj == 2).map(|(n, _)| *n).collect();
+                if !providers.is_empty() && r.below(4) != 0 { let pr = providers[r.below(providers.len())]; let al = g.alias_instance_export(pr, "r").unwrap(); g.set_instantiation_argument(inst, "r", al).unwrap(); }
+            }
+            let args: &[&str] = match k { 0 => &["a", "b"], _ => &["a"] };
             for a in args {
                 match r.below(10) {
                     0 | 1 | 2 => {}
@@ -177,7 +209,7 @@ fn main() {
                     _ if !insts.is_empty() => {
                         // reuse an existing alias (sharing) or make a new one
                         let src = if !aliases.is_empty() && r.below(3) == 0 { aliases[r.below(aliases.len())] } else {
-                            let (j, kj) = insts[r.below(insts.len())]; let names: &[&str] = if kj == 0 { &["f", "g"] } else { &["h"] };
+                            let (j, kj) = insts[r.below(insts.len())]; let names: &[&str] = match kj { 0 => &["f", "g"], 2 => &["f"], _ => &["h"] };
                             let al = g.alias_instance_export(j, names[r.below(names.len())]).unwrap(); if r.below(3) == 0 { g.set_node_name(al, format!("alias{}", aliases.len())); named += 1; } aliases.push(al); al };
                         g.set_instantiation_argument(inst, a, src).unwrap();
                     }
@@ -186,9 +218,15 @@ fn main() {
             }
             insts.push((inst, k));
         }
+        // one consumer per provider, each taking the TYPE export `r` of its own provider (the same type export aliased from
+        // several instances of one package)
+        if c % 2 == 0 {
+            let providers: Vec<NodeId> = insts.iter().filter(|(_, kj)| *kj == 2).map(|(n, _)| *n).collect();
+            for pr in providers { let cons = g.instantiate(pids[3]); let al = g.alias_instance_export(pr, "r").unwrap(); g.set_instantiation_argument(cons, "r", al).unwrap(); insts.push((cons, 3)); }
+        }
         let mut exported = 0;
         let mut funcs: Vec<NodeId> = imports.clone(); funcs.extend(aliases.iter().cloned());
-        for (j, kj) in insts.clone() { if r.below(2) == 0 { let names: &[&str] = if kj == 0 { &["f", "g"] } else { &["h"] }; funcs.push(g.alias_instance_export(j, names[r.below(names.len())]).unwrap()); } }
+        for (j, kj) in insts.clone() { if r.below(2) == 0 { let names: &[&str] = match kj { 0 => &["f", "g"], 2 => &["f"], _ => &["h"] }; funcs.push(g.alias_instance_export(j, names[r.below(names.len())]).unwrap()); } }
         // the designated exports, recorded when the API accepted them (one node may be designated under several names)
         let mut designated: Vec<(String, NodeId)> = vec![];
         for _ in 0..r.below(5) { if !funcs.is_empty() { let f = funcs[r.below(funcs.len())]; let name = format!("out{exported}"); if g.export(f, &name).is_ok() { exported += 1; designated.push((name, f)); } } }
